@@ -1651,24 +1651,54 @@ def check_simqueue_peek_merge(ctx, rep, rid):
             neg = [f for f in S if f[0] == 'cmp' and f[1] == 'eq' and f[5] is False and isinstance(f[3], tuple) and f[3] and f[3][0] == 'agg' and f[3][2] in ('Less', 'Equal')]
             both_neg = {f[3][2] for f in neg} == {'Less', 'Equal'} and all(
                 (lambda args: bool(args) and side_of(args[0][2][0]) == {'client'} and side_of(args[0][2][1]) == {'server'})([y for y in walk(f[2]) if is_call(y, 'cmp')]) for f in neg)
+            # `matches!(ordering, Less | Equal)` / `match ordering { .. }`: variant facts on the comparison
+            def cs_cmp(e):
+                args = [y for y in walk(e) if is_call(y, 'cmp')]
+                return bool(args) and side_of(args[0][2][0]) == {'client'} and side_of(args[0][2][1]) == {'server'}
+            for f in S:
+                if f[0] == 'variant' and cs_cmp(f[1]):
+                    if f[2] in ('Less', 'Equal'):
+                        less_eq = True
+                    if f[2] == 'Greater':
+                        both_neg = True
+                if f[0] == 'notvariant' and cs_cmp(f[1]):
+                    if {'Less', 'Equal'} <= set(f[2]):
+                        both_neg = True
+                    if 'Greater' in f[2] and not ({'Less', 'Equal'} & set(f[2])):
+                        less_eq = True
             if mine == 'client':
                 return less_eq is True and not both_neg
             return both_neg and less_eq is not True
         ok, w = all_paths(sts, ok_case)
         rep.ob(rid, pk, 'merge:%s-returned-only-when-first' % mine, ok and bool(sts), '' if ok else 'witness: ' + show_facts(w))
     rep.count_floor(rid, 'non-empty results of SimQueue::peek', n, 4)
-    # "nothing queued" is answered only for an empty queue: the early empty result sits behind len() == 0 (the caller unwraps otherwise)
+    # "nothing queued" is answered only for an empty queue: the early empty result sits behind len() == 0 / is_empty() (the caller
+    # unwraps otherwise)
     for (cls, nm) in (('SimQueue', 'peek'), ('EventQueue', 'peek')):
         f2 = prog.fn(SIM, cls, nm)
         a2 = an.get(f2)
-        sws = []
+        empties = [b for (b, k, v) in ret_defs(a2) if isinstance(v, tuple) and v and v[0] == 'tuple' and v[2] and isinstance(v[2][0], tuple) and v[2][0][0] == 'agg' and v[2][0][2] == 'None'
+                   and not any(is_call(y, 'peek') for y in walk(v))]
+        guards = []
         for b in a2.cfg.reach:
             t = a2.blocks[b]['t']
-            if t['k'] == 'switch':
-                e = a2.operand(t['d'], (b, len(a2.blocks[b]['s'])))
-                if is_call(unload(e), '::len'):
-                    sws.append((b, [x[0] for x in t['ts']]))
-        rep.ob(rid, f2, 'empty-result-only-for-an-empty-queue', len(sws) == 1 and sws[0][1] == ['0'], 'switch on len(): cases %s' % [x[1] for x in sws])
+            if t['k'] != 'switch':
+                continue
+            e = strip_sites(a2.operand(t['d'], (b, len(a2.blocks[b]['s']))))
+            for (y, lab) in a2.cfg.succ[b]:
+                if is_call(unload(e), '::len') and lab == ('sw', '0'):
+                    guards.append(y)
+                elif t.get('dty') == 'bool':
+                    pol = (lab[1] != '0') if lab[0] == 'sw' else ('0' in lab[1])
+                    empty_test = is_call(unload(e), '::is_empty') or (isinstance(e, tuple) and e and e[0] == 'bin' and e[1] == 'Eq' and
+                                                                         any(is_call(unload(z), '::len') for z in e[2:4]) and any(is_const(z, 0) for z in e[2:4]))
+                    if empty_test and pol:
+                        guards.append(y)
+        # an unconditional "nothing" for two absent sides (None, None) is not an early answer: only results not dominated by a peek call count
+        peeks = [b for (b, f, a, t) in calls(a2) if callee_str(f).endswith('::peek')]
+        early = [b for b in empties if not any(a2.cfg.dominates(pb, b) for pb in peeks)]
+        ok = bool(early) and all(any(a2.cfg.dominates(g, b) for g in guards) for b in early)
+        rep.ob(rid, f2, 'empty-result-only-for-an-empty-queue', ok, 'early empty results: %d, behind an emptiness test: %s' % (len(early), ok))
 
 
 def check_pick_next_handlers(ctx, rep, rid, handler, peek):
@@ -1733,12 +1763,12 @@ def param_behind(fa, e, depth=4):
 
 def check_search_sides(ctx, rep, rid, fn, what):
     """the client's slots are searched first and reported as the client's, then the server's as the server's: of the two clearing
-    sites one is in the first parameter's vector and sets the side flag true, the other in the second parameter's and sets it false;
-    each records what it found (the slot's machine / action) in the same step"""
+    sites one is in the first parameter's vector, the other in the second parameter's.  Where the search keeps its result in
+    flag / Option locals set next to the clearing (the form of the pinned tree), every clearing site does so and with the right flag"""
     prog, an = ctx.prog, ctx.an
     fa = an.get(fn)
     sites = clearing_sites(fa)
-    sides = []
+    info = []
     for (kind, pe, site) in sites:
         side = {1: True, 2: False}.get(param_behind(fa, pe))
         b = site[0]
@@ -1752,12 +1782,18 @@ def check_search_sides(ctx, rep, rid, fn, what):
                 flags.append(bool(num(v)))
             if isinstance(v, tuple) and v and v[0] == 'agg' and v[2] == 'Some' and fa.fn.local_ty(st['p']['l']).startswith('core::option::Option<'):
                 found = True
-        sides.append(side)
-        rep.ob(rid, fn, 'search:side-flag-matches-the-vector-searched:%s' % ('client' if side else 'server' if side is False else '?'),
-               side is not None and (flags == [side] or (side is False and flags == [])), 'slot of %s cleared, side flag set to %s in the same step' % ('client' if side else 'server', flags))
-        rep.ob(rid, fn, 'search:records-what-it-found:%s' % ('client' if side else 'server'), found, 'the %s found is stored (Some(..)) where its slot is cleared' % what)
+        info.append((side, flags, found))
     if len(sites) == 2:
-        rep.ob(rid, fn, 'search:client-then-server', sorted(sides, key=lambda x: not x) == [True, False] and len(set(sides)) == 2, 'vectors searched: %s' % ['client' if x else 'server' for x in sides])
+        sides = [x[0] for x in info]
+        rep.ob(rid, fn, 'search:client-then-server', set(sides) == {True, False}, 'vectors searched: %s' % ['client' if x else 'server' if x is False else '?' for x in sides])
+    if any(fl for (sd, fl, fo) in info):
+        for (side, flags, found) in info:
+            rep.ob(rid, fn, 'search:side-flag-matches-the-vector-searched:%s' % ('client' if side else 'server' if side is False else '?'),
+                   side is not None and flags == [side], 'slot of %s cleared, side flag set to %s in the same step' % ('client' if side else 'server', flags))
+    if any(fo for (sd, fl, fo) in info):
+        for (side, flags, found) in info:
+            rep.ob(rid, fn, 'search:records-what-it-found:%s' % ('client' if side else 'server'), found, 'the %s found is stored (Some(..)) where its slot is cleared' % what)
+
 
 
 def check_stop_conditions(ctx, rep, rid):
